@@ -42,6 +42,16 @@ func GenC13(t *rapid.T) *C13Case {
 			tree.O = append(tree.O, Pair{"deep", inner})
 		}
 	}
+	if oneIn(t, 15, "deepchain") {
+		chainCfg := cfg
+		chainCfg.LongLists = false
+		inner := GenChain(t, chainCfg, 70)
+		if tree.K == KList {
+			tree.L = append(tree.L, inner)
+		} else if _, dup := tree.Field("chain"); !dup {
+			tree.O = append(tree.O, Pair{"chain", inner})
+		}
+	}
 	c := &C13Case{Tree: tree, Flavour: drawInt(t, 0, 255, "flavour")}
 	if oneIn(t, 6, "share") {
 		c.Share, c.ShareFrom, c.ShareInto = true, genRaw(t), genRaw(t)
